@@ -1,7 +1,9 @@
 //! Logic related to the Carrier, the component in charge or sending/requesting transaction data from/to `bitcoind`.
 
 use std::collections::HashMap;
-use std::sync::{Arc, Condvar, Mutex};
+use std::sync::Arc;
+
+use crate::vsync::{Condvar, Mutex};
 
 use crate::responder::ConfirmationStatus;
 use crate::{errors, rpc_errors};
